@@ -45,6 +45,11 @@ class SpyNS:
 
 
 class Spy(EngineBase):
+    falsy = False
+
+    def __bool__(self):  # e.g. an engine that keeps a (still empty) registry and defines __len__
+        return not self.falsy
+
     def __init__(self, kind):
         super().__init__()
         self.kind = kind
@@ -105,7 +110,7 @@ def cases(draw):
             # element-level API on one element: init_vars / step with the default or an explicit spy engine
             ops.append(["el", draw(st.sampled_from(["init", "step", "init+step"])), draw(st.integers(0, 30)),
                         draw(st.one_of(st.none(), st.integers(0, 2)))])
-    return {"spec": sp, "spies": spies, "ops": ops, "opts": draw(st.lists(st.sampled_from(S.OPT_NAMES), unique=True, max_size=2).map(sorted))}
+    return {"spec": sp, "spies": spies, "ops": ops, "falsy_spy": draw(st.one_of(st.none(), st.none(), st.integers(0, 2))), "opts": draw(st.lists(st.sampled_from(S.OPT_NAMES), unique=True, max_size=2).map(sorted))}
 
 
 def strategy(tier):
@@ -149,6 +154,9 @@ def check_case(case, ctx):
         return
     net, els, _ = built
     spies = [Spy(k) for k in case["spies"]]
+    if case.get("falsy_spy") is not None:
+        spies[case["falsy_spy"]].falsy = True
+        ctx.label("falsy-engine")
     pars = S.pars_kwargs(sp)
     opts = S.opts_kwargs(case["opts"])
     model = engines.get_current_engine()  # the model of the selection: the object expected to be current
